@@ -115,7 +115,8 @@ def run(case, prop):
 def compare(case, line, ml):
     import vlib
     if vlib.unmodelled_text(case['s']): return None
-    if 'lorem' in case['s'].lower() or 'lipsum' in case['s'].lower(): return None      # random text: not modelled
+    low = case['s'].lower().replace('\\', '')
+    if 'lorem' in low or 'lipsum' in low: return None      # random text: not modelled
     o = (case['c'].get('options') or {}) if isinstance(case['c'], dict) else {}
     if o.get('bem.enabled') or o.get('comment.enabled'): return None                   # add-ons not modelled yet
     return line == ml
